@@ -238,6 +238,24 @@ def forest_of_lookup(lookup):
     return out
 
 
+def nest(node, budget):
+    """nested serialisation of the object graph under `node` (used by harness/c01.py on its small trees; C03
+    itself uses the iterative `flat_tree`); the budget bounds the number of RoutingTree expansions so that
+    shared nodes / cycles give a finite tree (with repeated chips)"""
+    from rig.place_and_route.routing_tree import RoutingTree
+    budget[0] -= 1
+    subs, leaves = [], []
+    for r, ch in node.children:
+        if isinstance(ch, RoutingTree):
+            if budget[0] > 0:
+                subs.append([enc_dir(r), nest(ch, budget)])
+            else:
+                subs.append([enc_dir(r), [ch.chip[0], ch.chip[1], [], []]])
+        else:
+            leaves.append([None if r is None else int(r), ch])
+    return [node.chip[0], node.chip[1], subs, leaves]
+
+
 def flat_tree(root, budget):
     """Flat pre-order serialisation of the object graph under `root`:
     [[x, y, [[dir, child_index], ...], [[route, vertex], ...]], ...], entry 0 = root, child indices larger than
